@@ -57,14 +57,16 @@ ASSUMPTIONS = [
     "Namespaces; a whole class argument is never a link target",
 ]
 EXHAUSTIVE = {"quick": False, "thorough": False}
-FINDING_CLASSES = {1: "link-key-prefix-overlap", 2: "list-item-target-in-dump", 3: "skipped-link-target-stripped"}
+FINDING_CLASSES = {1: "link-key-prefix-overlap", 2: "list-item-target-in-dump", 3: "skipped-link-target-stripped",
+                   4: "subcommand-env-defaults-stale-target"}
 
 # Which repairs (fixes/C15-<key>.patch) the implementation under test carries. None = decide by probing: a repair counts as
 # present exactly when the refutation witness of its finding (replays/known/C15-<key>.json, Proofs/C15Witness.v) no longer
 # reproduces on the implementation. The answer only selects between the faithful-to-the-bug and the repaired variant of the
 # model (Model/C15Links.v build / build_fixed, strip / strip_fixed; judge field c_fixed); every case is still judged
 # against the selected model AND the spec. True/False pins the variant; VERIF_C15_FIXED=prefix,dump (or empty) overrides.
-FIXES_APPLIED = {"link-key-prefix-overlap": None, "list-item-target-in-dump": None}
+FIXES_APPLIED = {"link-key-prefix-overlap": None, "list-item-target-in-dump": None,
+                 "subcommand-env-defaults-stale-target": None}
 _PROBE = {}
 
 
@@ -82,6 +84,10 @@ PROBES = {
         links=[{"src": ["u"], "tgt": "cs.init_args.q", "fn": None}],
         aspect=1, full=False, mode="args", env=[],
         argv=[["opt", "cs", [{"class_path": "c15mod.Base", "init_args": {}}]]], obj={}),
+    "subcommand-env-defaults-stale-target": dict(
+        decls=[_decl("s", "int", 0)], links=[], aspect=0, full=False, mode="args", env=[], argv=[], obj={},
+        sub={"name": "fit", "decls": [_decl("a", "int", 0), _decl("y", "any", "q")],
+             "links": [{"src": ["y"], "tgt": "a", "fn": None}], "argv": [["opt", "y", 9]]}),
 }
 
 
@@ -89,13 +95,15 @@ def probe_fixes():
     if framework.REPO not in _PROBE:
         keys = list(PROBES)
         res = run_impl_parallel("c15_links.py", [{"cases": [PROBES[k] for k in keys], "classes": CLASSES}])[0]
-        o1, o2 = res
+        o1, o2, o3 = res
+        stale = bool(o3["reparse"]) and o3["reparse"][0] == "ok"   # the dump of the witness tree loads again
         prefix = o1["build"] == [0, 1]                       # the overlapping second call raises ValueError
         dump = False
         if o2["dump"] is not None:
             items = unc(o2["dump"]).get("cs") or []
             dump = bool(items) and all("q" not in (it.get("init_args") or {}) for it in items)
-        _PROBE[framework.REPO] = {"link-key-prefix-overlap": prefix, "list-item-target-in-dump": dump}
+        _PROBE[framework.REPO] = {"link-key-prefix-overlap": prefix, "list-item-target-in-dump": dump,
+                                  "subcommand-env-defaults-stale-target": stale}
     return _PROBE[framework.REPO]
 
 
@@ -103,7 +111,8 @@ def fixes_present():
     env = os.environ.get("VERIF_C15_FIXED")
     if env is not None:
         parts = {x.strip() for x in env.split(",") if x.strip()}
-        return {"link-key-prefix-overlap": "prefix" in parts, "list-item-target-in-dump": "dump" in parts}
+        return {"link-key-prefix-overlap": "prefix" in parts, "list-item-target-in-dump": "dump" in parts,
+                "subcommand-env-defaults-stale-target": "stale" in parts}
     out = {}
     for k, v in FIXES_APPLIED.items():
         out[k] = probe_fixes()[k] if v is None else bool(v)
@@ -112,7 +121,8 @@ def fixes_present():
 
 def fixed_mask():
     f = fixes_present()
-    return (1 if f["link-key-prefix-overlap"] else 0) | (2 if f["list-item-target-in-dump"] else 0)
+    return ((1 if f["link-key-prefix-overlap"] else 0) | (2 if f["list-item-target-in-dump"] else 0)
+            | (4 if f["subcommand-env-defaults-stale-target"] else 0))
 
 
 def extra_coverage(tier):
